@@ -18,7 +18,7 @@ def chk(i, cat, text, note, tech, ref):
     CHECKS[i] = (cat, text, note, tech, ref)
 
 chk("C08", "exploration",
-    "Seeded search over histories of aborted/accepted parses, API range failures, context free/re-init and two interleaved clients, followed by probe parses (also rejected and accepted probes into a re-used context: errors inside sections an earlier parse opened, deprecated / dropped options assigned again); every history is executed as is, again with all process-global library state (scanner image, cfg_yylval, errno) reset before each API call, per-client solo, and each probe alone in a fresh image; any difference in return code, diagnostics (file, line and message text) or canonical dump is a violation. A third of the plans add a re-entry step: while a text is parsed, the first callback releases another context, parses into another one, or creates, fills and releases a temporary one - the outcome for the context being parsed must equal the run without that action. A text or value failing its range check must leave the context's values untouched. Sampling, not proof.",
+    "Seeded search over histories of aborted/accepted parses, API range failures, context free/re-init and two interleaved clients, followed by probe parses (also rejected and accepted probes into a re-used context: errors inside sections an earlier parse opened, deprecated / dropped options assigned again); every history is executed as is, again with all process-global library state (scanner image, cfg_yylval, errno) reset before each API call, per-client solo, and each probe alone in a fresh image; any difference in return code, diagnostics (file, line and message text) or canonical dump is a violation. A third of the plans add a re-entry step: while a text is parsed, the first callback releases another context, parses into another one, or creates, fills and releases a temporary one - the outcome for the context being parsed must equal the run without that action. A text or value failing its range check must leave the context's values untouched (O-trace); a parse after an earlier parse into the same context must end like the same parse without it, a search directory added in between included (O-hist); half of the plans re-use the FILE objects of closed streams. Sampling, not proof.",
     "Trusts the executor's canonical dump (public getters only) and the process-image restart (validated by the determinism self-test and by fresh-process replay of every violation). Event texts and probes are a fixed catalogue.",
     "deterministic simulation: seeded history/schedule search with differential oracles (O-scrub, O-fresh, O-solo)", "7/C08")
 
@@ -33,12 +33,12 @@ chk("C07", "fault_enumeration",
     "deterministic simulation: systematic error-point enumeration (cut / token corruption at every token) and seeded API histories with conservation invariants", "7/C07")
 
 chk("C02", "exploration",
-    "Seeded search: a rendered valid text under a random schema is damaged by storage faults (cut, byte flips 0..255, duplicated/zeroed/deleted blocks, spliced meta tokens, tail garbage) and delivered by every route (buffer, chunked stream, file, include); one run in 16 is a stress shape (10^5 nested unknown / known sections, 1 MiB tokens, 10^5 list elements, every unterminated construct, directory/empty/unreadable/missing/self-including targets as path and include target, hostile option-name paths). Monitored in every run: ASan+UBSan, the exit/abort/assert seams, bytes on stdout, allocation/read/callback step budgets (termination), return code; afterwards the context is printed, parsed into again and freed, and a fresh context must parse a probe exactly as in a fresh process image.",
+    "Seeded search: a rendered valid text under a random schema is damaged by storage faults (cut, byte flips 0..255, duplicated/zeroed/deleted blocks, spliced meta tokens, tail garbage) and delivered by every route (buffer, chunked stream, file, include); one run in 16 is a stress shape (10^5 nested unknown / known sections, 1 MiB tokens, 10^5 list elements, every unterminated construct, directory/empty/unreadable/missing/self-including targets as path and include target - absolute, through a search directory written with or without a trailing slash, and as ~ / ~user names that expand to a directory -, hostile option-name paths); section names include "root"; half of the plans re-use the FILE objects of closed streams (address reuse). Monitored in every run: ASan+UBSan, the exit/abort/assert seams, bytes on stdout, bytes taken from standard input (a scanner that lost its input falls back to stdin), allocation/read/callback step budgets (termination), return code; afterwards the context is printed, parsed into again and freed, and a fresh context must parse a probe exactly as in a fresh process image.",
     "Sampling over an unbounded input space; damage is seeded, not coverage-guided. Mid-stream read errors other than EISDIR are not injected (no property covers them). Uninitialised reads are observed only through ASan/UBSan and the fill byte.",
     "deterministic simulation: seeded storage-fault injection on input sources over all delivery routes, with death/stdout/budget monitors and recovery probe", "7/C02")
 
 chk("C13", "exploration",
-    "Seeded search: an accepted rendered text is split at item boundaries into a random tree of include files (depth 0..9; absolute, search-path-relative and tilde names; a third of the trees reach some files through symbolic links; buffer/stream/file delivery) and must give exactly the dump of the flat text obtained by writing every included file in place (O-flat); a wrong token appended to the includer must be reported with the includer's own file name and line (position restored); every failing target (missing, directory, unreadable, one level too deep, self-inclusion, error inside the included file, empty name) must be a reported parse error with no exit/abort, an empty include stack and all streams closed afterwards, followed by a good include that must work; histories of 1..12 failing includes are followed by the include tree in a new context compared with a fresh process image.",
+    "Seeded search: an accepted rendered text is split at item boundaries into a random tree of include files (depth 0..9; absolute, search-path-relative and tilde names; a third of the trees reach some files through symbolic links; buffer/stream/file delivery) and must give exactly the dump of the flat text obtained by writing every included file in place (O-flat); a wrong token appended to the includer - also inside a single section that an included file opened first - must be reported with the includer's own file name and line (position restored); search paths with a non-existing directory, a directory of same-named directories, or a later directory of same-named wrong files around the right one; a quarter of the trees with a callback that creates, fills and releases a temporary context in mid-parse; every failing target (missing, directory, unreadable, one level too deep, self-inclusion, error inside the included file, empty name) must be a reported parse error with no exit/abort, an empty include stack and all streams closed afterwards, followed by a good include that must work; histories of 1..12 failing includes are followed by the include tree in a new context compared with a fresh process image.",
     "Splitting is at top-level item boundaries only. Expected lines come from the generator's own text (newlines counted once). Oracles with expectations first establish that the fault-free source is accepted silently.",
     "deterministic simulation: simulated file tree + failing-target injection + history/recovery probes, flat-vs-split differential oracle", "7/C13")
 
@@ -53,7 +53,7 @@ chk("C04", "exploration",
     "deterministic simulation: ambient-errno fault injection with differential oracles (O-errno, O-scrub) plus reference conversion models", "7/C04")
 
 chk("C09", "exploration",
-    "Seeded operation histories (3-30 calls: typed setters by name/by option with index, list set/append, bulk string set, titled-section add, remove by index/title/path - paths of one or several components with numeric, bare, quoted, escaped and malformed qualifiers, titles including the empty one and ones containing | ' = -, deliberately illegal calls) from the pristine state or a state produced by an accepted parse, for one or two interleaved clients, stepped in lock-step against a small executable abstract store (ordered value sequence per option, ordered title-keyed section sequence per section option): after every call the return value and the observable projection (sizes, values, titles in order, modified flags) must match the model; every client's outcomes must equal its solo run.",
+    "Seeded operation histories (3-30 calls: typed setters by name/by option with index, list set/append, bulk string set, titled-section add, remove by index/title/path - paths of one or several components with numeric, bare, quoted, escaped and malformed qualifiers, titles including the empty one and ones containing | ' = -, deliberately illegal calls; a quarter of the runs case-insensitive with the letter case of titles flipped; every by-name accessor is cross-checked against its by-option counterpart; a third of the calls go through their second entry point - cfg_setint, cfg_opt_rmnsec, cfg_opt_setcomment ...) from the pristine state or a state produced by an accepted parse, for one or two interleaved clients, stepped in lock-step against a small executable abstract store (ordered value sequence per option, ordered title-keyed section sequence per section option): after every call the return value and the observable projection (sizes, values, titles in order, modified flags) must match the model; every client's outcomes must equal its solo run.",
     "Sequential refinement against a reference model over sampled histories; no fault is injected for this property (the scheduler contributes the two-client interleaving only). Rules the statement is silent about are explicit don't-cares listed in the evidence assumptions.",
     "deterministic simulation: seeded API histories checked by refinement against an executable reference model, two-client interleaving vs solo runs", "7/C09")
 
@@ -63,7 +63,7 @@ chk("C10", "exploration",
     "deterministic simulation: refusal injection (vetoing callback party, poisoned element at a chosen position, illegal request) with snapshot oracle", "7/C10")
 
 chk("C05", "exploration",
-    "Seeded histories (accepted parses of rendered texts and setter/list/section/annotation calls with string values and titles over bytes 1..255 biased to quotes, backslashes, $, {, newlines, comment markers) reach states of printable schemas; at plan-chosen points the context is saved with cfg_print into the simulated file system, freed, re-created from the same declarations and loaded, twice in a row, and the history continues on the reloaded context. The load must be accepted; sections, titles, list lengths and values must be equal (strings bytewise, floats to printed precision); with annotations off the second text equals the first; in every case the text after the second cycle equals the text after the first.",
+    "Seeded histories (accepted parses of rendered texts and setter/list/section/annotation calls with string values and titles over bytes 1..255 biased to quotes, backslashes, $, {, CR/LF pairs, comment markers, titles longer than 255 bytes) reach states of printable schemas; at plan-chosen points the context is saved with cfg_print into the simulated file system, freed, re-created from the same declarations and loaded, twice in a row, and the history continues on the reloaded context. The load must be accepted; sections, titles, list lengths and values must be equal (strings bytewise, floats to printed precision); with annotations off the second text equals the first; in every case the text after the second cycle equals the text after the first.",
     "States with no textual form (NULL string value, removed single section) are don't-cares; titled single sections are not generated. The simulated environment is live during the load.",
     "deterministic simulation: save / process-restart / load injected at arbitrary points of seeded API+parse histories, round-trip oracle", "7/C05")
 
@@ -73,12 +73,12 @@ chk("C06", "fault_enumeration",
     "deterministic simulation: exhaustive per-token fault injection (wrong token / bad value / cut) in a simulated include tree with a line oracle from the generator's token map", "7/C06")
 
 chk("C14", "fault_enumeration",
-    "Callback parties are simulator functions whose verdicts come from the plan. For seeded schemas (value-parsing callbacks of all five kinds, validators, pre-set validators, function options, options bound to application variables, annotation support on in half of the plans) and rendered texts whose decoded values the generator knows by construction, the complete invocation trace of the fault-free parse is aligned with the text (once per value, input order, exact decoded bytes, exact decoded function arguments, validator after every stored value and seeing it through read-only re-entry); then for EVERY k the parse is repeated with the k-th invocation returning non-zero: it must fail, invoke nothing afterwards, and leave every top-level option other than the one under assignment exactly as after the items before the failing one (O-prefix). One plan in five vetoes / rewrites by-name setters through the pre-set validator.",
+    "Callback parties are simulator functions whose verdicts come from the plan. For seeded schemas (value-parsing callbacks of all five kinds, validators, pre-set validators, function options, options bound to application variables, annotation support on in half of the plans, deprecated / dropped options, callbacks that leave errno set, registration paths in another letter case under CFGF_NOCASE; the k-th invocation refuses with 1, -1, 2 or -7; callback-produced integers beyond 32 bits) and rendered texts whose decoded values the generator knows by construction, the complete invocation trace of the fault-free parse is aligned with the text (once per value, input order, exact decoded bytes, exact decoded function arguments, validator after every stored value and seeing it through read-only re-entry); then for EVERY k the parse is repeated with the k-th invocation returning non-zero: it must fail, invoke nothing afterwards, and leave every top-level option other than the one under assignment exactly as after the items before the failing one (O-prefix). One plan in five vetoes / rewrites by-name setters through the pre-set validator.",
     "Complete over k per text; texts sampled. Options with callbacks carry no parsed defaults. The extra validator call at a list's closing brace is accepted, not required.",
     "deterministic simulation: callback parties with exhaustive k-th-invocation failure injection, trace alignment and prefix-state oracle", "7/C14")
 
 chk("C16", "exploration",
-    "In every run the caller's declaration arrays and all strings in them are overwritten with 0xDD and freed right after cfg_init(), so any later read is an ASan use-after-free. Two contexts created from the same declarations are driven by two clients whose scripts (accepted parses, cleanly rejected parses, texts the scanner gives up on in mid-string, setters, annotations, callback and print-filter registration, print, free + re-init) are interleaved by a seeded schedule; in a third of the runs the two parties are two instances of one multi section inside one context, followed by a third instance created late that must equal a pristine instance. After every step the party's outcome (return value, diagnostics, canonical dump, callback log / instance subtree) must equal its outcome in the solo run.",
+    "In every run the caller's declaration arrays and all strings in them are overwritten with 0xDD and freed right after cfg_init(), so any later read is an ASan use-after-free. Two contexts created from the same declarations are driven by two clients whose scripts (accepted parses, cleanly rejected parses, texts the scanner gives up on in mid-string, setters, annotations, callback and print-filter registration, print, free + re-init; one party in four without an error function of its own; an undeclared-key probe at the end) are interleaved by a seeded schedule; in a third of the runs the two parties are two instances of one multi section inside one context (with print filters, validators and search directories of their own, the context's search path borrowed), followed by a third instance created late that must equal a pristine instance. After every step the party's outcome (return value, diagnostics, canonical dump, callback log / instance subtree) must equal its outcome in the solo run.",
     "Sampling over schedules and scripts. Options bound to caller variables are excluded (sharing is their contract). errno is pinned so that the C04 mechanism cannot fire; include files are not part of these plans (process-wide include state is C08's and C13's).",
     "deterministic simulation: seeded two-party interleavings compared with solo runs, declaration memory poisoned and freed under ASan", "7/C16")
 
